@@ -5,6 +5,7 @@ The prompt contains only the property text, the one-line summaries of the change
 import json, os, sys, glob
 V = os.path.dirname(os.path.dirname(os.path.abspath(__file__)))
 letters, outdir = sys.argv[1], sys.argv[2]
+rnd = sys.argv[3] if len(sys.argv) > 3 else '5'
 os.makedirs(outdir, exist_ok=True)
 for l in open(os.path.join(V, 'properties.jsonl')):
     p = json.loads(l); pid = p['id']
@@ -35,20 +36,28 @@ Earlier rounds already produced the following changes for this property (one lin
 variant; go for functions, code paths, element types, dimensions and kinds of defect that none of them came near:
 {chr(10).join(prev)}
 
-What I am looking for in this round (letters {', '.join(letters)}):
-* Each change must need something SPECIFIC to manifest: a multi-step sequence of calls (state left behind by an earlier in-place call,
-  an iterator pulled in a particular interleaving, a value converted twice), an unusual but legal input (ties, zero-extent, negative
-  scale, un-normalised axis, bounds at the numeric limits, to<from), two cooperating sites that each look fine alone, or a particular
-  build configuration (one cargo feature or feature combination, one element type of a per-type macro arm such as u16/i64/Wrapping<_>,
-  one dimension such as Vec16, one storage layout, a release build versus a debug build). Nothing that ordinary use exposes at once.
-* Prefer places that look unremarkable: trait impls that mirror an inherent method (Sum/Product/From/AsRef/Default/Neg/MulAssign),
-  by-reference and in-place siblings, deprecated aliases, shared private helpers and macros with several callers, the less famous twin of
-  a famous function (2-D, column-major, left-handed, zero-to-one depth, Rect3/Aabb rather than Rect/Aabr, Extent/Uv/Uvw rather than Vec).
+What I am looking for in this round (letters {', '.join(letters)}) -- at least TWO of your three changes must come from this list, and the
+three should be of three different kinds:
+* ELEMENT-TYPE-SPECIFIC: generic code (`impl<T: ...>`) rewritten so that it stays correct for `f32`/`f64` in exact arithmetic but is wrong
+  for integer, unsigned, `Wrapping<_>` or `bool` elements: truncating division (`a / s` vs `a * (1 / s)`, `(a + b) / 2` vs `a / 2 + b / 2`),
+  `a - b` vs `-(b - a)` or reordered subtractions that underflow for unsigned types, `abs`/`signum`/negation tricks, `<` vs `<=` that only
+  matters for discrete types, `T::one() / two`, casts through a narrower or signed type, or one arm of a per-type macro (u16, i64, ...).
+* BUILD-CONFIGURATION-SPECIFIC: wrong only in a release build (`cfg!(debug_assertions)`, `#[cfg(not(debug_assertions))]`, work done inside
+  a `debug_assert!`, an `assert!` the property requires demoted to `debug_assert!`), only on the stable or only on the nightly toolchain
+  (`build.rs` emits `cfg(stable)` / `cfg(nightly)`), only for one `target_pointer_width`/`target_arch`, or only with one cargo feature or
+  feature combination (`--no-default-features`, `libm` instead of `std`, `mint`, `az`, `bytemuck`, `serde`, `vec8`..`vec64`, `rgb`, `uv`, ...).
+* STATE / SEQUENCE: wrong only after a particular sequence of calls (an in-place method that leaves one field stale for the NEXT call, an
+  iterator pulled from both ends, `by_ref`, a value converted there and back twice) while every single call from a fresh value is right.
+* PANIC / OPTION BEHAVIOUR: a documented panic that no longer happens or happens for legal inputs, `None` vs `Some` at exactly one boundary
+  value, `unwrap_or` hiding a failure, an early return for an "obviously trivial" input (zero, one, identity, empty, equal bounds).
+* TWO COOPERATING SITES that each look fine alone (a helper whose contract changed together with only some of its callers).
+Other requirements:
+* Prefer places that look unremarkable and that the earlier changes listed above never touched.
 * The change must be wrong for the PROPERTY (in exact arithmetic / for totally ordered inputs); do not rely on floating-point rounding,
   NaN or infinity, and do not merely change documentation, Debug output or performance.
 * Keep each change small (a few lines) and natural-looking: the kind of slip or "optimisation" a maintainer could make.
 
-For each change X in {{{', '.join(letters)}}} create the directory /tmp/mut/{pid}/out5/X/ containing:
+For each change X in {{{', '.join(letters)}}} create the directory /tmp/mut/{pid}/out{rnd}/X/ containing:
   patch.diff   `git diff` of that ONE change against the clean worktree HEAD (must apply with `git apply` from the repo root);
   demo.rs      an integration test file (it will be copied to tests/demo.rs; `use vek::...`) whose tests PASS on the clean tree and FAIL
                with the change. If the demo needs cargo features beyond the default, write them in a first-line comment exactly like
@@ -59,6 +68,7 @@ For each change X in {{{', '.join(letters)}}} create the directory /tmp/mut/{pid
                `Needs to manifest:` describing what is needed to see it, and why the existing tests do not see it.
 Before finishing, for every change verify yourself in the worktree: (1) clean tree: demo passes; (2) with the change: demo fails;
 (3) with the change: the full existing suite passes. Reset the worktree to clean (`git checkout -- . && rm -f tests/demo.rs`) between
-changes and at the end. Report briefly what you produced."""
+changes and at the end. Never use `git stash` (the stash is shared with other agents' worktrees): use `git diff > file`, `git checkout -- .`, `git apply file`.
+Report briefly what you produced."""
     open(os.path.join(outdir, pid + '.txt'), 'w').write(txt)
 print('ok')
